@@ -91,7 +91,7 @@ noncomputable scoped instance flTransc [ExpLnStd M] : Transc (Fl M) where
     (Transc.ln a).val = ExpLnStd.lnR (M := M) a.val := rfl
 
 /-- positivity of the idealised library `exp`.  PROVISO: `ExpLnStd` is an idealisation — no IEEE `exp` has relative error `≤ uf` below `−745.13` (underflow) or above `709.78` (overflow); at binary64 the computed value can be exactly `0` there.  The underflow-aware variants are in namespace `Cv.Rounding3U` (class `ExpLnUfl`). -/
-theorem expR_pos [ExpLnStd M] (x : ℝ) : 0 < ExpLnStd.expR (M := M) x := by
+theorem expR_pos_stdmodel [ExpLnStd M] (x : ℝ) : 0 < ExpLnStd.expR (M := M) x := by
   obtain ⟨δ, hδ, h⟩ := ExpLnStd.exp_std (M := M) x
   rw [h]
   have := (abs_le.mp hδ).1
@@ -234,7 +234,7 @@ theorem shiftedExpSum_near [ExpLnStd M] (m : Fl M) (x : List (Fl M)) (D : ℝ)
     intro t ht
     obtain ⟨e, he, rfl⟩ := List.mem_map.mp ht
     obtain ⟨v, _, rfl⟩ := List.mem_map.mp he
-    exact (expR_pos _).le
+    exact (expR_pos_stdmodel _).le
   have h2 := Near.of_pert hp hpos
   have hlen : es.length = x.length := by simp [hes]
   rw [hlen] at h2
@@ -505,7 +505,7 @@ theorem softmaxSum_near [ExpLnStd M] [MaxBot (Fl M)] (x : List (Fl M)) :
     intro t ht
     obtain ⟨e, he, rfl⟩ := List.mem_map.mp ht
     obtain ⟨v, _, rfl⟩ := List.mem_map.mp he
-    exact (expR_pos _).le)
+    exact (expR_pos_stdmodel _).le)
   simpa [vals, List.map_map, Function.comp_def, softmaxSum_unfold] using this
 
 /-- **`softmax` returns positive numbers that sum to one up to `γ_{n+1}`** (standard model only; of the
@@ -516,7 +516,7 @@ instance).  `Σᵢ ŷᵢ` is the exact real sum of the computed entries `ŷᵢ =
 
 This is the floating-point form of "non-negative numbers that sum to 1".  PROVISO: `ExpLnStd` is an idealisation — no IEEE `exp` has relative error `≤ uf` below `−745.13` (underflow) or above `709.78` (overflow); at binary64 the computed value can be exactly `0` there.  The underflow-aware variants are in namespace `Cv.Rounding3U` (class `ExpLnUfl`).
 (`softmax_sum_error_ufl`: entries `≥ 0`, same bound on the sum.) -/
-theorem softmax_sum_error [ExpLnStd M] [MaxBot (Fl M)] (x : List (Fl M)) (hne : x ≠ [])
+theorem softmax_sum_error_stdmodel [ExpLnStd M] [MaxBot (Fl M)] (x : List (Fl M)) (hne : x ≠ [])
     (h : ((x.length + 1 : Nat) : ℝ) * M.u < 1) :
     (softmax x).length = x.length ∧ (∀ y ∈ softmax x, 0 < y.val) ∧
       |(vals (softmax x)).sum - 1| ≤ M.γ (x.length + 1) := by
@@ -538,8 +538,8 @@ theorem softmax_sum_error [ExpLnStd M] [MaxBot (Fl M)] (x : List (Fl M)) (hne : 
       have h0 : 0 ≤ (l.map fun a => (Transc.exp a).val).sum := List.sum_nonneg (by
         intro t ht
         obtain ⟨_, _, rfl⟩ := List.mem_map.mp ht
-        exact (expR_pos _).le)
-      have h1 := expR_pos (M := M) a.val
+        exact (expR_pos_stdmodel _).le)
+      have h1 := expR_pos_stdmodel (M := M) a.val
       simp only [fl_exp_val] at h0 ⊢
       linarith
   have hŜpos : 0 < Ŝ.val := hnearS.pos (M.pow_pos' _) hEpos
@@ -547,13 +547,13 @@ theorem softmax_sum_error [ExpLnStd M] [MaxBot (Fl M)] (x : List (Fl M)) (hne : 
   · intro y hy
     rw [softmax_unfold] at hy
     obtain ⟨a, _, rfl⟩ := List.mem_map.mp hy
-    have hq : 0 < (Transc.exp a).val / Ŝ.val := div_pos (expR_pos _) hŜpos
+    have hq : 0 < (Transc.exp a).val / Ŝ.val := div_pos (expR_pos_stdmodel _) hŜpos
     exact (Near.rnd M hq.le).pos M.one_sub_u_pos hq
   · -- Σ ŷ against Σ e/Ŝ = E/Ŝ
     have h1 : Near (1 - M.u) (args.map fun a => (Transc.exp a).val / Ŝ.val).sum
         (args.map fun a => (Transc.exp a / Ŝ).val).sum :=
       Near.sum (1 - M.u) args _ _ (fun a _ =>
-        Near.rnd M (div_pos (expR_pos (M := M) a.val) hŜpos).le)
+        Near.rnd M (div_pos (expR_pos_stdmodel (M := M) a.val) hŜpos).le)
     have hsum : (args.map fun a => (Transc.exp a).val / Ŝ.val).sum = E / Ŝ.val := by
       rw [hE, ← sum_map_div, List.map_map]; rfl
     have hvals : (vals (softmax x)).sum = (args.map fun a => (Transc.exp a / Ŝ).val).sum := by
@@ -607,7 +607,7 @@ theorem softmax_entry_near [ExpLnStd M] [MaxBot (Fl M)] (x : List (Fl M)) (hne :
     rw [sum_exp_shift]; exact mul_pos (sum_exp_pos x hne) (Real.exp_pos _)
   have hq := Near.div hc1 hc2 (Real.exp_pos _).le hSpos hn1 hn2
   have he0 : 0 ≤ (Transc.exp (x[i] - m)).val / (VecOps.shiftedExpSum m x).val :=
-    div_nonneg (expR_pos _).le (hn2.pos hc2 hSpos).le
+    div_nonneg (expR_pos_stdmodel _).le (hn2.pos hc2 hSpos).le
   have hr := Near.rnd M he0
   have := Near.trans (mul_pos hc1 hc2).le M.one_sub_u_pos.le hq hr
   rw [← softmaxExact_eq x m.val (x[i])]
@@ -679,7 +679,7 @@ theorem logistic_error [ExpLnStd M] (x : Fl M) (h : ((2 : Nat) : ℝ) * M.u < 1)
     _ = _ := by ring
 
 /-- the computed logistic is positive (idealised standard model only).  PROVISO: `ExpLnStd` is an idealisation — no IEEE `exp` has relative error `≤ uf` below `−745.13` (underflow) or above `709.78` (overflow); at binary64 the computed value can be exactly `0` there.  The underflow-aware variants are in namespace `Cv.Rounding3U` (class `ExpLnUfl`). -/
-theorem logistic_pos [ExpLnStd M] (x : Fl M) : 0 < (logistic x).val := by
+theorem logistic_pos_stdmodel [ExpLnStd M] (x : Fl M) : 0 < (logistic x).val := by
   obtain ⟨F, G, hF, hG, hv⟩ := logistic_fac x
   rw [hv]
   exact mul_pos (mul_pos (sigma_pos _) hF.pos) hG.pos
@@ -687,13 +687,13 @@ theorem logistic_pos [ExpLnStd M] (x : Fl M) : 0 < (logistic x).val := by
 /-- **Range of the computed `logistic`**: with a monotone rounding function that fixes `1`
 (round-to-nearest does both) the computed value lies in `(0, 1]` for every input — in particular it is
 a valid argument of `logit`.  PROVISO: `ExpLnStd` is an idealisation — no IEEE `exp` has relative error `≤ uf` below `−745.13` (underflow) or above `709.78` (overflow); at binary64 the computed value can be exactly `0` there.  The underflow-aware variants are in namespace `Cv.Rounding3U` (class `ExpLnUfl`).  (`logistic_range_ufl`: `[0, 1]`.) -/
-theorem logistic_range [ExpLnStd M] (hmono : Monotone M.rnd) (h1 : M.rnd 1 = 1) (x : Fl M) :
+theorem logistic_range_stdmodel [ExpLnStd M] (hmono : Monotone M.rnd) (h1 : M.rnd 1 = 1) (x : Fl M) :
     0 < (logistic x).val ∧ (logistic x).val ≤ 1 := by
-  refine ⟨logistic_pos x, ?_⟩
+  refine ⟨logistic_pos_stdmodel x, ?_⟩
   show M.rnd (1 / M.rnd (1 + ExpLnStd.expR (M := M) (-x.val))) ≤ 1
   have hd : 1 ≤ M.rnd (1 + ExpLnStd.expR (M := M) (-x.val)) := by
     rw [← h1]
-    exact hmono (by linarith [expR_pos (M := M) (-x.val)])
+    exact hmono (by linarith [expR_pos_stdmodel (M := M) (-x.val)])
   have hq : 1 / M.rnd (1 + ExpLnStd.expR (M := M) (-x.val)) ≤ 1 := by
     rw [div_le_one (by linarith)]; exact hd
   calc M.rnd (1 / M.rnd (1 + ExpLnStd.expR (M := M) (-x.val))) ≤ M.rnd 1 := hmono hq
